@@ -256,6 +256,24 @@ def observe_dict(case, order):
     return _obs(sol, [tuple(c[:4]) for c in case['cells']])
 
 
+def observe_dict_roundtrip(case, order):
+    """The model finished with circular=True, exported, sent through JSON, imported and finished the same way."""
+    import json
+    items = []
+    for b, s, c, r, e in case['cells']:
+        items.append((key_of((b, s, c, r)), content(e, 'dict', (b, s))))
+    for b, nm, t in case.get('names', ()):
+        items.append(("'[%s]'!%s" % (b, nm), '=' + render(t, 'dict', (b, None))))
+    d = {}
+    for i in order:
+        k, v = items[i]
+        d[k] = v
+    m = sut.ExcelModel().from_dict(d, assemble=False).finish(complete=False, circular=True)
+    d1 = json.loads(json.dumps(m.to_dict()))
+    m2 = sut.ExcelModel().from_dict(d1, assemble=False).finish(complete=False, circular=True)
+    return _obs(m2.calculate(), [tuple(c[:4]) for c in case['cells']])
+
+
 _COUNTER = itertools.count()
 
 
@@ -459,6 +477,16 @@ def check_wb(case, want_obs=False):
                 obs_all.append(('dict%d' % oi, obs))
                 if oi == 0:
                     fails += judge(case, an, obs, 'dict')
+                    if not case.get('names'):
+                        # C09 meets C10: the export of a model with cycles describes the same workbook
+                        obs_rt, crash_rt = _guarded(observe_dict_roundtrip, case, order)
+                        n += 1
+                        if crash_rt:
+                            fails.append(('roundtrip|' + crash_rt[0], crash_rt[1]))
+                        elif obs_rt != obs:
+                            diff = sorted(k for k in obs if obs[k] != obs_rt.get(k))
+                            fails.append(('roundtrip|values|%s' % order_tag(an, diff, [(obs[k], obs_rt.get(k)) for k in diff]),
+                                          'after to_dict -> json -> from_dict -> finish(circular=True): %s' % [(k, show(obs[k]), show(obs_rt.get(k))) for k in diff[:4]]))
                 elif obs != prev:
                     diff = sorted(k for k in obs if obs[k] != prev[k])
                     fails.append(('order|dict-insertion|%s' % order_tag(an, diff, [(prev[k], obs[k]) for k in diff]), 'insertion order %r vs %r: %s' % (order, case['orders'][0], [
@@ -594,6 +622,8 @@ def check_case(case):
             return check_wb(case)
         if k == 'wb2':
             return check_wb2(case)
+        if k == 'wbov':
+            return check_wbov(case)
     raise ValueError(k)
 
 
@@ -677,7 +707,65 @@ def _two_cycle_wbs():
                 out.append({'k': 'wb2', 'variant': '%s|a1=%s|a2=%s' % (shape, a1, a2),
                             'wb': {'k': 'wb', 'cells': [list(S) + c for c in cells], 'names': [],
                                    'orders': [list(range(m)), list(range(m))[::-1], rot], 'paths': ['dict', 'file'], 'sheet_order': ['S']}})
+    # an unavoidable cycle through a rectangle one of whose OTHER members is the end of a long ordinary chain
+    # (added after seed c10-a-r4): the chain and that member keep their ordinary values
+    for depth in (3, 6, 10, 14):
+        for order_kind in ('asis', 'chain-last'):
+            rg = ['RG', S[0], S[1], 1, 1, 1, 3]
+            cells = [[1, 1, 1], [1, 3, Rr(2, 1)], [2, 1, ['+', ['SUM', rg], 0]]]
+            chain = [[3, 1, 1]] + [[3, 1 + k, ['+', Rr(3, k), 1]] for k in range(1, depth)]
+            member = [[1, 2, ['+', Rr(3, depth), Rr(3, depth)]], [4, 1, ['+', Rr(1, 2), 1]]]
+            cells = cells + chain + member if order_kind == 'asis' else member + cells + chain
+            m = len(cells)
+            out.append({'k': 'wb2', 'variant': 'range-cycle-deep-member|depth=%d|%s' % (depth, order_kind),
+                        'wb': {'k': 'wb', 'cells': [list(S) + c for c in cells], 'names': [],
+                               'orders': [list(range(m)), list(range(m))[::-1]], 'paths': ['dict', 'file'], 'sheet_order': ['S']}})
     return out
+
+
+def _override_wbs():
+    """A value supplied for ONE cell of an unavoidable cycle breaks the cycle: the other cells are ordinary formulas of that value
+    (added after seed c07-b-r4); the expectation is the analysis of the workbook with that cell typed in as a constant."""
+    S = (G.BOOK, 'S')
+
+    def Rr(c, r):
+        return ['R', S[0], S[1], c, r]
+    out = []
+    for depth in (1, 2, 4, 8):
+        chain = [[3, 1, 1]] + [[3, 1 + k, ['+', Rr(3, k), 1]] for k in range(1, depth)]
+        cells = [[1, 1, ['+', Rr(1, 2), Rr(3, depth)]], [1, 2, ['+', Rr(1, 1), 1]], [1, 4, ['+', Rr(1, 1), Rr(1, 1)]], [1, 5, ['+', Rr(1, 2), 18]]] + chain
+        for target, val in (((1, 2), 10), ((1, 1), 7)):
+            for order_kind in (0, 1):
+                cs = cells if not order_kind else cells[::-1]
+                out.append({'k': 'wbov', 'variant': 'break-cycle|depth=%d|%s%d|o%d' % (depth, 'AB'[target[1] - 1], target[0], order_kind),
+                            'cells': [list(S) + c for c in cs], 'target': list(target), 'value': val})
+    return out
+
+
+def check_wbov(case):
+    cells = case['cells']
+    t = tuple(case['target'])
+    typed = [c if tuple(c[2:4]) != t else c[:4] + [case['value']] for c in cells]
+    an = L.analyse(typed, ())
+    d = {key_of(tuple(c[:4])): content(c[4], 'dict', (c[0], c[1])) for c in cells}
+    m = sut.ExcelModel().from_dict(d, assemble=False).finish(complete=False, circular=True)
+    tk = key_of((cells[0][0], cells[0][1]) + t)
+    fails = []
+    sol = m.calculate(inputs={tk: float(case['value'])})
+    obs = _obs(sol, [tuple(c[:4]) for c in cells])
+    obs[tk] = float(case['value'])  # (the supplied cell is what was supplied)
+    for s_, d_ in judge({'cells': typed}, an, obs, 'override'):
+        fails.append(('override-cycle|%s|%s' % (case['variant'].split('|o')[0], s_.split('|', 1)[1]), d_))
+    plain = _obs(m.calculate(), [tuple(c[:4]) for c in cells])
+    an0 = L.analyse(cells, ())
+    for s_, d_ in judge({'cells': cells}, an0, plain, 'plain-after-override'):
+        fails.append(('override-cycle|%s|after|%s' % (case['variant'].split('|o')[0], s_.split('|', 1)[1]), d_))
+    seen, out = set(), []
+    for s_, d_ in fails:
+        if s_ not in seen:
+            seen.add(s_)
+            out.append((s_, d_))
+    return R(out, nt=True, n=3, labels=['part:override-cycle'])
 
 
 def check_wb2(case):
@@ -706,6 +794,7 @@ def parts(tier, seed):
         ('enum', 'digraphs<=4', _blocks(), 2, True),
         ('enum', 'fixed-workbooks', _fixed_wbs(), 1, False),
         ('enum', 'two-cycles-and-a-rectangle', _two_cycle_wbs(), 1, False),
+        ('enum', 'override-breaks-cycle', _override_wbs(), 1, False),
         ('hyp', 'graphs', 2400 if q else 40000),
         ('hyp', 'workbooks', 960 if q else 16000),
         ('custom', 'hashseeds', 'run_hashseed', list(range(8 if q else 24))),
